@@ -8,8 +8,21 @@ import (
 	bolt "go.etcd.io/bbolt"
 )
 
-var u32 = binary.BigEndian.Uint32
-var u64 = binary.BigEndian.Uint64
+// u32 and u64 decode a stored field; a field that has never been written (the API allows
+// records with any subset of fields) reads as zero
+func u32(b []byte) uint32 {
+	if len(b) < 4 {
+		return 0
+	}
+	return binary.BigEndian.Uint32(b)
+}
+
+func u64(b []byte) uint64 {
+	if len(b) < 8 {
+		return 0
+	}
+	return binary.BigEndian.Uint64(b)
+}
 
 func i64ToB(value int64) []byte {
 	oct := make([]byte, 8)
